@@ -1216,6 +1216,8 @@ var witnessClasses = map[string][]string{
 	"C05": {"minmax", "topk", "panic"},
 	"C06": {"size"},
 	"C14": {"earlystop", "reiter", "panic"},
+	"C13": {"keymut"},
+	"C15": {"querymut"},
 }
 
 func treeKindOf(fn string) string {
@@ -1360,6 +1362,7 @@ func vwRun[K any](t *testing.T, kd vwKind[K], seed int64) {
 			want := sorted()
 			ks, vs := collect(tr.All())
 			same("iter", "All()", ks, vs, want)
+			snapK, snapV, snapSize := ks, vs, tr.Size()
 			rev := make([]K, len(want))
 			for i := range want {
 				rev[len(want)-1-i] = want[i]
@@ -1425,8 +1428,61 @@ func vwRun[K any](t *testing.T, kd vwKind[K], seed int64) {
 				ks, vs = collect(tr.Prefix(p))
 				same("prefix", fmt.Sprintf("Prefix(%%v)", p), ks, vs, wp)
 			}
+			// the queries above must not have changed the content
+			ks, vs = collect(tr.All())
+			if tr.Size() != snapSize || len(ks) != len(snapK) {
+				fail("querymut", "content changed by queries: %%d pairs / Size %%d before, %%d / %%d after", len(snapK), snapSize, len(ks), tr.Size())
+			}
+			for i := range ks {
+				if id(ks[i]) != id(snapK[i]) || vs[i] != snapV[i] {
+					fail("querymut", "content changed by queries at position %%d: (%%v,%%d) became (%%v,%%d)", i, snapK[i], snapV[i], ks[i], vs[i])
+				}
+			}
 		}
 	}
+}
+
+// vwKeyMut: byte-slice keys are neither written to nor retained by reference (C13).
+func vwKeyMut(t *testing.T) {
+	tr := NewAlphaSortedTree[[]byte, int]()
+	fill := func() ([]byte, []byte) {
+		buf := make([]byte, 3, 16)
+		copy(buf, "abc")
+		spare := buf[:16]
+		for i := 3; i < 16; i++ {
+			spare[i] = 'Z'
+		}
+		return buf, spare
+	}
+	check := func(op string, spare []byte) {
+		if string(spare[:3]) != "abc" {
+			t.Fatalf("MISMATCH[keymut] %%s changed the key argument itself: %%q", op, spare[:3])
+		}
+		for i := 3; i < 16; i++ {
+			if spare[i] != 'Z' {
+				t.Fatalf("MISMATCH[keymut] %%s wrote into the spare capacity of the caller's key slice (byte %%d is %%#x)", op, i, spare[i])
+			}
+		}
+	}
+	buf, spare := fill()
+	tr.Insert(buf, 1)
+	check("Insert", spare)
+	tr.Insert([]byte("abd"), 2)
+	buf[0] = 'x' // the caller reuses its slice
+	if v, ok := tr.Search([]byte("abc")); !ok || v != 1 {
+		t.Fatalf("MISMATCH[keymut] the stored key aliases the caller's slice: after the caller overwrote its buffer Search(\"abc\") = (%%d,%%v)", v, ok)
+	}
+	buf, spare = fill()
+	tr.Search(buf)
+	check("Search", spare)
+	for range tr.Range(buf, []byte("abz")) {
+	}
+	check("Range", spare)
+	for range tr.Prefix(buf[:2]) {
+	}
+	check("Prefix", spare)
+	tr.Delete(buf)
+	check("Delete", spare)
 }
 
 func vwWord(r *rand.Rand) string {
@@ -1445,6 +1501,7 @@ func vwWord(r *rand.Rand) string {
 func TestVerifReplay(t *testing.T) {
 	kind, seed := %q, int64(%d)
 	if kind == "" || kind == "alpha" {
+		vwKeyMut(t)
 		vwRun(t, vwKind[string]{name: "alpha", mk: func() Tree[string, int] { return NewAlphaSortedTree[string, int]() },
 			less: func(a, b string) bool { return a < b }, gen: vwWord,
 			prefix: strings.HasPrefix, cut: func(k string, r *rand.Rand) string { return k[:r.Intn(len(k)+1)] }}, seed)
